@@ -156,7 +156,7 @@ func Lex(text string) (toks []Token, err error) {
 func SyntaxOK(text string) (ok bool, err error) {
 	defer guard(&err)
 	lexer := gen.NewPacketDslLexer(antlr.NewInputStream(text))
-	l := parser.NewSyntaxErrorListener()
+	l := &countingListener{DefaultErrorListener: antlr.NewDefaultErrorListener()}
 	lexer.RemoveErrorListeners()
 	lexer.AddErrorListener(l)
 	stream := antlr.NewCommonTokenStream(lexer, antlr.TokenDefaultChannel)
@@ -164,7 +164,35 @@ func SyntaxOK(text string) (ok bool, err error) {
 	p.RemoveErrorListeners()
 	p.AddErrorListener(l)
 	p.Packet()
-	return !l.HasErrors(), nil
+	return l.n == 0, nil
+}
+
+// SyntaxErrors counts the errors of the generated lexer and of the generated parser separately, with
+// the facade's own listeners.
+func SyntaxErrors(text string) (lexErrs, parseErrs int, err error) {
+	defer guard(&err)
+	lexer := gen.NewPacketDslLexer(antlr.NewInputStream(text))
+	ll := &countingListener{DefaultErrorListener: antlr.NewDefaultErrorListener()}
+	pl := &countingListener{DefaultErrorListener: antlr.NewDefaultErrorListener()}
+	lexer.RemoveErrorListeners()
+	lexer.AddErrorListener(ll)
+	stream := antlr.NewCommonTokenStream(lexer, antlr.TokenDefaultChannel)
+	p := gen.NewPacketDslParser(stream)
+	p.RemoveErrorListeners()
+	p.AddErrorListener(pl)
+	p.Packet()
+	return ll.n, pl.n, nil
+}
+
+// countingListener is the facade's own error listener: the oracle "is this text syntactically valid"
+// must not depend on the repository's listener, which is part of the code under test.
+type countingListener struct {
+	*antlr.DefaultErrorListener
+	n int
+}
+
+func (c *countingListener) SyntaxError(recognizer antlr.Recognizer, offendingSymbol interface{}, line, column int, msg string, e antlr.RecognitionException) {
+	c.n++
 }
 
 // ParserOK reports whether the parser alone (the repository's own notion) accepts text.
